@@ -414,7 +414,9 @@ func runEncoded(c *mc.Ctx, r *mc.Result) {
 	segs := []seg{{"a", ""}, {"a:b", ""}, {"a?b", "a%3Fb"}, {"a#b", "a%23b"}, {"a%b", "a%25b"}, {"a b", "a%20b"}, {"é", ""}, {"é", "%C3%A9"},
 		{"https:e.com", ""}, {"a/b", "a%2Fb"}, {"a;b", ""}, {"a&b=c", ""}, {"..a", ""}, {"a=b", ""}, {"a+b", ""}, {"@a", ""}, {"a\\b", "a%5Cb"},
 		// escaped separators and dots: the escaped form is clean although the decoded form is not
-		{"a//b", "a%2F%2Fb"}, {"a/./b", "a%2F.%2Fb"}, {"a/", "a%2F"}, {"/a", "%2Fa"}, {"..", "%2E%2E"}, {".", "%2E"}, {"a/../b", "a%2F..%2Fb"}}
+		{"a//b", "a%2F%2Fb"}, {"a/./b", "a%2F.%2Fb"}, {"a/", "a%2F"}, {"/a", "%2Fa"}, {"..", "%2E%2E"}, {".", "%2E"}, {"a/../b", "a%2F..%2Fb"},
+		// a colon at the very start / end of the last segment, nothing but a colon
+		{":a", ""}, {":", ""}, {":80", ""}, {"a:", ""}, {"::", ""}, {"..a", ""}, {"...", ""}}
 	sets := [][]rsx.RouteSpec{
 		{{Pattern: "/{p0}/", Slash: rsx.SlashRedirect}},
 		{{Pattern: "/{p0}", Slash: rsx.SlashRedirect}},
